@@ -1,6 +1,7 @@
 /- driver for C13: B/IP layers (component lockstep) and whole IP worlds (end-to-end) -/
 import BacVerif.Drv.Common
 import BacVerif.Model.Bip
+import BacVerif.Lemmas.BipOnce
 open Lean BacVerif BacVerif.Drv BacVerif.Bip
 
 /-! ### JSON → model -/
@@ -177,6 +178,14 @@ def netOfJson (j : Json) : R Net := do
 def jWorldDigest (w : World) : Json :=
   Json.arr (w.nets.flatMap fun n => n.nodes.map fun nd => Json.arr #[jAddr nd.addr, jKind nd.st]).toArray
 
+/-- the hypotheses of `bbmd_once`, evaluated (they are decidable) on the current world:
+    `ok` = WF ∧ Pop ∧ Mesh, `homes` = the nodes that are served by some BBMD (`Home`) -/
+def jHyp (w : World) : Json :=
+  let ok := decide (WF w) && decide (Pop w) && decide (Mesh w)
+  let bb := (nodesOf w).filterMap fun p => if p.2.isBbmd then some p.2.addr else none
+  let homes := (nodesOf w).filter fun p => bb.any fun h => decide (Home w p.1 p.2 h)
+  Json.mkObj [("ok", Json.bool ok), ("homes", Json.arr (homes.map fun p => jAddr p.2.addr).toArray)]
+
 def reply (r : World × List Obs × Bool) (br : String) : St × Json :=
   (.world r.1, Json.mkObj [("obs", Json.arr (r.2.1.map jObs).toArray), ("quiet", Json.bool r.2.2),
                             ("digest", jWorldDigest r.1), ("br", br)])
@@ -210,7 +219,8 @@ def handle (s : St) (j : Json) : R (St × Json) := do
         match op with
         | "bcast" =>
             let r := w.broadcast (← addrOf (← fld j "a")) (← fldHex j "data")
-            pure (reply r ("bcast:" ++ brOfObs r.2.1))
+            let (st, o) := reply r ("bcast:" ++ brOfObs r.2.1)
+            pure (st, o.setObjVal! "hyp" (jHyp w))
         | "ucast" =>
             let r := w.unicast (← addrOf (← fld j "a")) (← addrOf (← fld j "to")) (← fldHex j "data")
             pure (reply r ("ucast:" ++ brOfObs r.2.1))
